@@ -117,14 +117,17 @@ type hdrRec struct {
 	AC     uint32    `json:"ac"`
 }
 type scnRec struct {
-	K      string     `json:"k"`
-	ID     int        `json:"id"`
-	Keytab []string   `json:"keytab"`
-	Mhp    uint32     `json:"mhp"`
-	Mhc    uint32     `json:"mhc"`
-	Params []paramRec `json:"params"`
-	Chain  []hdrRec   `json:"chain"`
-	Ops    []opRec    `json:"ops"`
+	K      string      `json:"k"`
+	ID     int         `json:"id"`
+	Phase  int         `json:"phase"`
+	PG0    []commitRec `json:"pg0"`
+	PNG0   []commitRec `json:"png0"`
+	Keytab []string    `json:"keytab"`
+	Mhp    uint32      `json:"mhp"`
+	Mhc    uint32      `json:"mhc"`
+	Params []paramRec  `json:"params"`
+	Chain  []hdrRec    `json:"chain"`
+	Ops    []opRec     `json:"ops"`
 }
 
 func id32(g uint32) []byte {
@@ -153,6 +156,11 @@ type scenario struct {
 	single  map[string][]byte // (key,cert id) -> signature bytes
 	tip     uint32
 	rec     *scnRec
+	id      int
+	db      *db.DB
+	current liskbft.BFTValidators
+	lastGen map[string]uint32
+	ts0     uint32
 }
 
 func (s *scenario) blockCode(id []byte) uint64 {
@@ -335,8 +343,11 @@ func newScenario(r *hx.Rng, id int, nkeys int, length int) *scenario {
 	store.Commit(batch)
 	must(s.chain.AddBlock(batch, genesis, nil, 0, false))
 	s.headers[0] = genesis.Header
-	current := vals
-	lastGen := map[string]uint32{}
+	s.current = vals
+	s.lastGen = map[string]uint32{}
+	s.db = database
+	s.ts0 = ts0
+	s.id = id
 	nchanges := r.Intn(4)
 	changeAt := map[uint32]bool{}
 	for i := 0; i < nchanges; i++ {
@@ -346,37 +357,50 @@ func newScenario(r *hx.Rng, id int, nkeys int, length int) *scenario {
 		x := uint32(1 + r.Intn(length-1))
 		changeAt[x], changeAt[x+1] = true, true
 	}
-	for h := uint32(1); h <= uint32(length); h++ {
+	s.extend(length, changeAt)
+	s.snapshotEnv(0)
+	return s
+}
+
+// extend the chain by n blocks through the real liskbft module; parameter changes at the listed heights
+func (s *scenario) extend(n int, changeAt map[uint32]bool) {
+	r := s.r
+	bft := s.exec.VerifC06LiskBFT()
+	for h := s.tip + 1; h <= s.tip+uint32(n); h++ {
 		store := s.exec.VerifC06ConsensusStore()
 		prevoted, precommitted, certified, err := bft.API().GetBFTHeights(store)
 		must(err)
-		gen := current[int(h)%len(current)].Address()
+		gen := s.current[int(h)%len(s.current)].Address()
 		ac := &blockchain.AggregateCommit{Height: certified, AggregationBits: codec.Hex{}, CertificateSignature: codec.Hex{}}
 		if precommitted > certified && r.Intn(4) == 0 {
 			ac = &blockchain.AggregateCommit{Height: certified + 1 + uint32(r.Intn(int(precommitted-certified))), AggregationBits: codec.Hex{1}, CertificateSignature: codec.Hex{1}}
 		}
 		last := s.headers[h-1]
-		hd := mkHeader(h, ts0+10*h, last.ID, gen, lastGen[string(gen)], prevoted, 1+h%5, 3, ac)
+		hd := mkHeader(h, s.ts0+10*h, last.ID, gen, s.lastGen[string(gen)], prevoted, 1+h%5, 3, ac)
 		must(bft.BeforeTransactionsExecute(hd.Readonly(), store))
-		lastGen[string(gen)] = h
+		s.lastGen[string(gen)] = h
 		if changeAt[h] {
 			p, c, vals := s.randomParams()
 			must(bft.API().SetBFTParameters(store, p, c, vals))
-			current = vals
+			s.current = vals
 		}
 		_, precommitted, _, err = bft.API().GetBFTHeights(store)
 		must(err)
-		batch := database.NewBatch()
+		batch := s.db.NewBatch()
 		store.Commit(batch)
 		must(s.chain.AddBlock(batch, &blockchain.Block{Header: hd, Transactions: []*blockchain.Transaction{}, Assets: blockchain.BlockAssets{}}, nil, precommitted, false))
 		s.headers[h] = hd
 	}
-	s.tip = uint32(length)
-	// the node's view
-	store = s.exec.VerifC06ConsensusStore()
+	s.tip += uint32(n)
+}
+
+// the node's view at this point of the history; the pool carried over from the previous phase is part of the record
+func (s *scenario) snapshotEnv(phase int) {
+	bft := s.exec.VerifC06LiskBFT()
+	store := s.exec.VerifC06ConsensusStore()
 	_, mhp, mhc, err := bft.API().GetBFTHeights(store)
 	must(err)
-	rec := &scnRec{K: "scn", ID: id, Mhp: mhp, Mhc: mhc}
+	rec := &scnRec{K: "scn", ID: s.id, Phase: phase, Mhp: mhp, Mhc: mhc}
 	for _, k := range s.pks {
 		rec.Keytab = append(rec.Keytab, hex.EncodeToString(k))
 	}
@@ -399,8 +423,10 @@ func newScenario(r *hx.Rng, id int, nkeys int, length int) *scenario {
 		must(err)
 		rec.Chain = append(rec.Chain, hdrRec{Height: h, Cert: s.certOf(hd), AC: hd.AggregateCommit.Height})
 	}
+	op := opRec{}
+	s.dumpPool(&op)
+	rec.PG0, rec.PNG0 = op.PG, op.PNG
 	s.rec = rec
-	return s
 }
 
 func nullLoggerAdapter() logAdapter { return logAdapter{} }
@@ -926,6 +952,7 @@ func main() {
 	nscn := flag.Int("scenarios", 6, "scenarios")
 	nlong := flag.Int("long", 2, "of which longer than 100 blocks")
 	npool := flag.Int("poolops", 60, "random pool operations per scenario")
+	nphases := flag.Int("phases", 2, "further phases per scenario: chain extended, pool carried over")
 	in := flag.String("in", "", "replay: not supported (scenarios are regenerated from the seed); ignored")
 	flag.Parse()
 	_ = in
@@ -946,6 +973,19 @@ func main() {
 		s.assembleSweep()
 		s.poolOps(*npool)
 		o.Put(s.rec)
+		// the history goes on: more blocks (finality and the certified height move, parameters change again), the pool
+		// carries its commits over, more pool operations under the new view
+		for ph := 1; ph <= *nphases; ph++ {
+			k := 1 + r.Intn(9)
+			ch := map[uint32]bool{}
+			if r.Intn(2) == 0 {
+				ch[s.tip+1+uint32(r.Intn(k))] = true
+			}
+			s.extend(k, ch)
+			s.snapshotEnv(ph)
+			s.poolOps(*npool / 3)
+			o.Put(s.rec)
+		}
 	}
 	if o.N == 0 {
 		os.Exit(1)
